@@ -2166,17 +2166,18 @@ class HexBlock(Block):
                 # central location
                 return 3.0
             else:
-                symmetryLine = self.core.spatialGrid.overlapsWhichSymmetryLine(indices)
-                # detect if upper edge assemblies are included. Doing this is the only way to know
-                # definitively whether or not the edge assemblies are half-assems or full.
-                # seeing the first one is the easiest way to detect them.
-                # Check it last in the and statement so we don't waste time doing it.
-                upperEdgeLoc = self.core.spatialGrid[-1, 2, 0]
+                grid = self.core.spatialGrid
+                symmetryLine = grid.overlapsWhichSymmetryLine(indices)
                 if symmetryLine in [
                     grids.BOUNDARY_0_DEGREES,
                     grids.BOUNDARY_120_DEGREES,
-                ] and bool(self.core.childrenByLocator.get(upperEdgeLoc)):
-                    return 2.0
+                ]:
+                    # An assembly on a symmetry line is a half assembly only if its twin on the
+                    # other line is modeled as well (i.e. the edge assemblies are included). Look
+                    # for this assembly's own twin: the first edge location may be empty.
+                    for i, j in grid.getSymmetricEquivalents(indices):
+                        if self.core.childrenByLocator.get(grid[i, j, 0]):
+                            return 2.0
         return 1.0
 
     def autoCreateSpatialGrids(self, systemSpatialGrid=None):
